@@ -147,6 +147,22 @@ fn step_mod_min_by_minus_one() {
     let m = ok(eval(Node::Modulo(int(i64::MIN), int(-1))));
     assert!(matches!(m, Some(Number::Integer(0))), "MIN % -1 is 0"); }
 
+// ---- the tokenizer on concrete literals (point checks: CBMC cannot run the tokenizer on symbolic text) - a second line for the literal arms
+fn first_token(text: &str) -> Option<super::token::Token> { super::tokenizer::Tokenizer::new(text).next() }
+// @obligation owners=C09,C19,C01 fn=eval_number::tokenizer::Tokenizer::next/literal bounded="the one literal 9223372036854775807 (concrete)"
+#[kani::proof]
+#[kani::unwind(24)]
+fn tok_int_literal_max() { assert!(first_token("9223372036854775807") == Some(super::token::Token::Num(Number::Integer(i64::MAX))), "a point-free literal that fits i64 is that Integer"); }
+// @obligation owners=C09,C19,C01 fn=eval_number::tokenizer::Tokenizer::next/literal bounded="the one literal 9007199254740993 = 2^53 + 1 (concrete): an Integer, exactly"
+#[kani::proof]
+#[kani::unwind(24)]
+fn tok_int_literal_above_2_53() { assert!(first_token("9007199254740993") == Some(super::token::Token::Num(Number::Integer(9007199254740993))), "no round trip through f64"); }
+
+// @obligation owners=C09,C19 fn=eval_number::tokenizer::Tokenizer::next/literal bounded="the one literal 2.0 (concrete): a literal with a point is a Float, integral or not"
+#[kani::proof]
+#[kani::unwind(24)]
+fn tok_float_literal_integral() { assert!(matches!(first_token("2.0"), Some(super::token::Token::Num(Number::Float(f))) if f == 2.0), "a pointed literal is a Float"); }
+
 // ---- unary minus, abs, sgn ----------------------------------------------------------------------------------------
 // @obligation owners=C09,C15 fn=eval_number::ast::eval/Negative exact=1
 #[kani::proof]
